@@ -426,10 +426,17 @@ Qed.
 Lemma stray_Inv g tx sh yes : Inv g -> Inv (fst (gstep g (EStray tx sh yes))).
 Proof.
   intros I. cbn [gstep]. destruct (aget (pending (co g)) tx) as [t|] eqn:Gt; [|exact I].
-  destruct (mem sh (c_parts t)) eqn:M; [exact I|].
-  pose proof (vote_Inv g tx sh (if yes then VYes 0 else VConflict 0) I) as H.
-  destruct (c_vote (co g) tx sh (if yes then VYes 0 else VConflict 0)) as [c' r]. cbn [fst] in *. apply H.
-  intros t' h Gt' Hp _. rewrite Gt in Gt'. injection Gt' as <-. apply mem_In in Hp. congruence.
+  destruct (mem sh (c_parts t)) eqn:M; cbn [andb].
+  - (* a participant: only as a duplicate, which record_vote rejects without touching anything *)
+    destruct (aget (c_votes t) sh) as [v0|] eqn:Gv; cbn [negb]; [|exact I].
+    pose proof (c_vote_cases (co g) tx sh (if yes then VYes 0 else VConflict 0)) as Hc. cbn zeta in Hc.
+    destruct (c_vote (co g) tx sh (if yes then VYes 0 else VConflict 0)) as [c' r]. cbn [fst snd] in *.
+    destruct Hc as [_ [[-> _]|[t' [ph [Gp [_ [Gn _]]]]]]].
+    + destruct I. constructor; cbn; auto.
+    + rewrite Gt in Gp. injection Gp as <-. congruence.
+  - pose proof (vote_Inv g tx sh (if yes then VYes 0 else VConflict 0) I) as H.
+    destruct (c_vote (co g) tx sh (if yes then VYes 0 else VConflict 0)) as [c' r]. cbn [fst] in *. apply H.
+    intros t' h Gt' Hp _. rewrite Gt in Gt'. injection Gt' as <-. apply mem_In in Hp. congruence.
 Qed.
 
 (* ---------------------------------------------------------------- begin *)
@@ -724,7 +731,7 @@ Proof.
   - exists []. cbn. now rewrite app_nil_r.
   - exists []. cbn. now rewrite app_nil_r.
   - exists []. rewrite app_nil_r. destruct (aget (pending (co g)) tx) as [t|]; [|reflexivity].
-    destruct (mem sh (c_parts t)); [reflexivity|]. destruct (c_vote _ _ _ _). reflexivity.
+    destruct (mem sh (c_parts t) && _); [reflexivity|]. destruct (c_vote _ _ _ _). reflexivity.
 Qed.
 
 Lemma grun_dec_ext es : forall g, exists l, dec (grun g es) = dec g ++ l.
